@@ -276,6 +276,8 @@ func (m *recoveryMessage) GetCommits(p dbft.ConsensusPayload[util.Uint256], vali
 			continue // Not a validator, nothing to restore.
 		}
 		cc := fromPayload(commitType, p.(*Payload), &commit{signature: c.Signature})
+		// The commit belongs to the view it was sent in, not to the carrier's one.
+		cc.message.ViewNumber = c.ViewNumber
 		cc.message.ValidatorIndex = c.ValidatorIndex
 		cc.Sender = validators[c.ValidatorIndex].(*keys.PublicKey).GetScriptHash()
 		cc.Witness.InvocationScript = c.InvocationScript
